@@ -106,7 +106,7 @@ def r2(ctx):
                    {"path": path_text(o)})
 
 
-def run_forever_paths(ctx, reconnect=0, prior_errored=False, scenario_filter=None, close_in=None, interrupt_in=None):
+def run_forever_paths(ctx, reconnect=0, prior_errored=False, scenario_filter=None, close_in=None, interrupt_in=None, close_during_sleep=False):
     """Whole run_forever with the built-in dispatcher; the dispatcher's read loop is a stub that plays one scenario."""
     idx = ctx.index
 
@@ -155,6 +155,16 @@ def run_forever_paths(ctx, reconnect=0, prior_errored=False, scenario_filter=Non
         "threading.Thread": lambda I, run, a, k, n: new_obj(run, None, "pingthread"),
         "stopev.set": lambda *a: NONE, "pingthread.is_alive": lambda *a: FALSE, "pingthread.start": lambda *a: NONE,
     })
+    if close_during_sleep:
+        # the application calls close() from another thread while the loop thread sleeps out the reconnect interval
+        def sleeping(I, run, args, kwargs, node):
+            run.effect("sleep", args, node=node)
+            if run.choose(2, I.locof(node), "sleep: undisturbed / app.close() from another thread during the wait") == 1:
+                app = next(a for a, c in run.heap.items() if getattr(c, "label", "") == "app")
+                run.effect("--other thread: app.close()")
+                I.call(run, I.getattr(run, Ref(app), "close", None), [], {}, node)
+            return NONE
+        st["time.sleep"] = sleeping
     if close_in:
         # a user callback that calls app.close()
         def closing_cb(I, run, args, kwargs, node):
